@@ -467,8 +467,13 @@ class ExprMixin(object):
                 t = self.truth(v, s2)
                 if i == len(n.values) - 1:
                     out.append((Sc(z3.And(*(acc + [t])) if isand else z3.Or(*(acc + [t])), 'bool'), st)); continue
+                ts = z3.simplify(t)
+                if (isand and z3.is_false(ts)) or (not isand and z3.is_true(ts)):
+                    out.append((Sc(z3.BoolVal(not isand), 'bool'), st)); continue      # short circuit decided here
                 s3 = s2.copy()
                 s3.pc.append(t if isand else z3.Not(t))
+                if not self.feasible(s3):
+                    out.append((Sc(z3.And(*(acc + [t])) if isand else z3.Or(*(acc + [t])), 'bool'), st)); continue
                 self.refine_optional(n.values[i], s3, isand)
                 go(i + 1, s3, acc + [t])
         go(0, st, [])
@@ -571,6 +576,9 @@ class ExprMixin(object):
 
     def getattr(self, recv, name, st, node=None):
         r = self.deref(recv, st)
+        if isinstance(r, NTup):
+            if name in r.cls.fields: return [(r.items[r.cls.fields.index(name)], st)]
+            raise AttributeErrorSite(r.cls.name, name)
         if isinstance(r, ModuleV):
             if r.ext:
                 mod, orig = r.ext
@@ -591,6 +599,8 @@ class ExprMixin(object):
             if fi is None: raise AttributeErrorSite(r.cls, name)
             if fi.is_property: return self.call_function(fi, [recv], {}, st, self_cls=(r.module, r.cls), node=node)
             return [(BoundMethod(recv, name), st)]
+        if isinstance(r, Obj) and getattr(self.reg.classes.get(r.cls), 'external', False) and self.reg.field_type(r.cls, name) is None:
+            return [(BoundMethod(recv, name), st)]
         if isinstance(r, Obj):
             self.assume_invariant(r, st)
             fty = self.reg.field_type(r.cls, name)
@@ -608,6 +618,7 @@ class ExprMixin(object):
             if fi is not None: return [(Closure(fi.node, fi.module, 0, cls=r.name, qual=fi.qualname), st)]
             a = r.module.class_attr(r.name, name)
             if a is not None: return self.ev(a, st)
+        if isinstance(r, Builtin) and name == '__name__': return [(PyStr(r.name), st)]
         if isinstance(r, Closure) and name == '__get__':
             return [(BoundMethod(recv, '__get__'), st)]
         if isinstance(r, Closure) or isinstance(r, FuncV):
@@ -796,7 +807,7 @@ def TupleSort(sorts):
 def _tuple_term(zs):
     return TupleSort([z.sort() for z in zs]).mk(*zs)
 
-_BUILTINS = set('float int len range print sorted tuple list set dict str min max abs enumerate zip hasattr isinstance super StringIO open bool round sum Exception ValueError KeyError TypeError IndexError NotImplementedError AttributeError ZeroDivisionError NameError object property'.split())
+_BUILTINS = set('round float int len range print sorted tuple list set dict str min max abs enumerate zip hasattr isinstance super StringIO open bool round sum Exception ValueError KeyError TypeError IndexError NotImplementedError AttributeError ZeroDivisionError NameError object property'.split())
 
 
 # =====================================================================================
@@ -939,6 +950,8 @@ class StmtMixin(object):
         v = st.env.get(name)
         if isinstance(v, Opt) and branch == notnone_when:
             st.env[name] = v.val
+        elif isinstance(v, Opt) and isinstance(test, ast.Compare):
+            st.env[name] = NONE       # the branch where `x is None` holds
 
     def feasible(self, st):
         s = z3.Solver(); s.set('timeout', 2000); s.add(*st.pc)
@@ -1355,11 +1368,16 @@ class CallMixin(object):
         if isinstance(f, Rec):      # callable object with a known class
             return self.call_method(fref, '__call__', args, kw, st, node)
         if isinstance(f, Builtin): return self.call_builtin(f.name, args, kw, st, node)
+        if isinstance(f, Opt): raise Unsupported('call of an optional value')
         if isinstance(f, FuncV): return self.call_function(f.fi, args, kw, st, node=node)
         if isinstance(f, Closure):
             a = ([f.self_val] if f.self_val is not None else []) + list(args)
             return self.call_closure(f, a, kw, st, node)
         if isinstance(f, BoundMethod): return self.call_method(f.recv, f.name, args, kw, st, node)
+        if isinstance(f, NTClass):
+            items = list(args) + [kw[k_] for k_ in f.fields[len(args):]]
+            if len(items) != len(f.fields): raise Unsupported('namedtuple arity')
+            return [(NTup(f, items), st)]
         if isinstance(f, ClassV): return self.construct(f, args, kw, st, node)
         if isinstance(f, LocalClass): return self.construct_local(f, args, kw, st, node)
         if isinstance(f, FnV):
@@ -1382,6 +1400,14 @@ class CallMixin(object):
     # ---------------------------------------------------------------- builtins
     def call_builtin(self, name, args, kw, st, node):
         d = [self.deref(a, st) for a in args]
+        if name in ('float', 'int') and isinstance(d[0], Sc) and d[0].py == 'str':
+            # conversion of text: ValueError unless the text is a numeral of that type
+            a = d[0]
+            ok = (parses_float if name == 'float' else parses_int)(a.z)
+            s_bad = st.copy(); s_bad.pc.append(z3.Not(ok))
+            self._raises.append(Outcome('raise', s_bad, ExcV('ValueError', origin=name)))
+            st = st.copy(); st.pc.append(ok)
+            return [(Sc((str_to_real if name == 'float' else str_to_int)(a.z), name), st)]
         if name == 'float':
             a = d[0]
             if isinstance(a, Sc) and a.py in ('int', 'float', 'bool'): return [(Sc(self.as_real(a), 'float'), st)]
@@ -1392,12 +1418,34 @@ class CallMixin(object):
             if isinstance(a, Sc) and a.py == 'float':
                 if not z3.is_const(a.z) and not z3.is_rational_value(z3.simplify(a.z)):
                     # int() of a computed float: the integer must not depend on the last-bit rounding of the
-                    # computation (A1 is NOT assumed here): trunc(x(1+d)) == trunc(x) for |d| <= 2^-52
-                    d = fresh(RealS, 'ulp')
-                    eps = z3.RealVal(1) / z3.RealVal(2 ** 52)
-                    self.obl('float-int-robust', st, trunc(a.z * (1 + d)) == trunc(a.z), extra_h=[d >= -eps, d <= eps])
+                    # computation (A1 is NOT assumed here): with the float result perturbed by a few ulps the integer is the same.
+                    # 3 ulps: two decimal literals rounded on input and one rounded operation.
+                    e = fresh(RealS, 'round_err')
+                    M = getattr(self.contract, 'robust_bound', None) or 10 ** 6
+                    eps = z3.RealVal(3 * M) / z3.RealVal(2 ** 52)          # |x| <= M  =>  |x * d| <= M * 3 ulp
+                    hyps = []
+                    if self.contract.robust_when is not None: hyps += self.contract.robust_when(NS(self, st))
+                    src = getattr(a, 'rounded_from', None)
+                    x = src[0] if src is not None else a.z
+                    rv = getattr(self.contract, 'robust_value', None)
+                    if rv is not None:
+                        # the contract names the exact value of the float in the case it cares about: proved here (may be
+                        # nonlinear, but small), then the robustness query is stated on that value and is linear
+                        xv = rv(NS(self, st))
+                        self.obl('float-int-value', st, x == xv, extra_h=hyps)
+                        x = xv
+                    self.obl('float-int-range', st, z3.And(x <= M, x >= -M), extra_h=hyps)
+                    if src is not None: goal = trunc(round_n(x + e, src[1])) == trunc(round_n(x, src[1]))
+                    else: goal = trunc(x + e) == trunc(x)
+                    o_ = self.obl('float-int-robust', st, goal, extra_h=hyps + [e >= -eps, e <= eps], carries=True)
+                    if rv is not None: o_.hyps = hyps + [e >= -eps, e <= eps]      # nothing else is needed: keeps the query small
                 return [(Sc(trunc(a.z), 'int'), st)]
             raise Unsupported('int(%r)' % (a,))
+        if name == 'round' and len(d) == 2 and isinstance(d[1], Sc) and z3.is_int_value(d[1].z) and isinstance(d[0], Sc):
+            nd = d[1].z.as_long(); x = self.as_real(d[0])
+            self.reg.assume('round(x, n) is modelled as floor(x*10^n + 1/2)/10^n (Python rounds halves to even and works on the binary value: differs only at exact halves)')
+            out = Sc(round_n(x, nd), 'float'); out.rounded_from = (x, nd)
+            return [(out, st)]
         if name == 'len':
             a = d[0]
             if isinstance(a, (Tup, PyList)): return [(Sc(z3.IntVal(len(a.items)), 'int'), st)]
@@ -1493,6 +1541,7 @@ class CallMixin(object):
     def call_method(self, recv, name, args, kw, st, node):
         r = self.deref(recv, st)
         d = [self.deref(a, st) for a in args]
+        if isinstance(r, Builtin) and name == '__name__': return [(PyStr(r.name), st)]
         if isinstance(r, Closure) and name == '__get__':
             return [(Closure(r.node, r.module, r.depth, self_val=args[0], cls=r.cls, qual=r.qual), st)]
         if isinstance(r, DocObj):
@@ -1548,6 +1597,10 @@ class CallMixin(object):
                 if isinstance(k, PyStr): return [(r.d.get(k.s, args[1] if len(args) > 1 else NONE), st)]
             if name == 'keys': return [(Tup([PyStr(k) for k in r.d]), st)]
             if name == 'copy': return [(st.new_cell(PyDict(r.d)), st)]
+        if isinstance(r, Obj) and getattr(self.reg.classes.get(r.cls), 'external', False):
+            c = self.reg.get('<ext>', '%s.%s' % (r.cls, name))
+            if c is None: raise Unsupported('external method %s.%s has no assumed contract' % (r.cls, name))
+            return self.call_contract(c, None, [recv] + list(args), kw, st, node)
         if isinstance(r, (Obj, Rec)):
             if isinstance(r, Rec):
                 fi = r.module.find_method(r.cls, name); home = (r.module, r.cls)
@@ -1697,10 +1750,23 @@ class CallMixin(object):
     # ---------------------------------------------------------------- modular call
     def call_contract(self, c, fi, args, kw, st, node):
         names = list(c.params)
-        fnames = [a.arg for a in fi.node.args.args]
-        if names != fnames:
-            raise ContractMismatch('%s::%s parameters are %s but the contract declares %s' % (fi.file, fi.qualname, fnames, names))
-        env = self.bind_params(fi.node, args, kw, st, st)
+        if fi is None:
+            # assumed contract of an external (library) function: parameters by position/keyword, defaults from the contract
+            class _Q(object): pass
+            fi = _Q(); fi.qualname = c.qualname; fi.file = c.file
+            env = {}
+            for nm, v in zip(names, args): env[nm] = v
+            for k_, v in kw.items(): env[k_] = v
+            for nm in names:
+                if nm not in env:
+                    if nm in c.defaults: env[nm] = c.defaults[nm]
+                    else: raise Unsupported('missing argument %s of %s' % (nm, c.qualname))
+            self.reg.assume('external contract assumed: %s (%s)' % (c.qualname, c.note or 'see contracts/ext_*.py'))
+        else:
+            fnames = [a.arg for a in fi.node.args.args]
+            if names != fnames:
+                raise ContractMismatch('%s::%s parameters are %s but the contract declares %s' % (fi.file, fi.qualname, fnames, names))
+            env = self.bind_params(fi.node, args, kw, st, st)
         # coerce actuals to the declared parameter types
         for nm, ty in c.params.items():
             env[nm] = self.coerce(env[nm], ty, st, nm)
@@ -1716,7 +1782,16 @@ class CallMixin(object):
             st.cells[v.id] = self.havoc_value(st.cells[v.id], '%s@%s' % (nm, fi.qualname))
         post_state = st; frame = post_env
         res_v, res_z = NONE, None
-        if c.result is not None and c.result.kind == 'Opt':
+        if c.result is not None and c.result.kind == 'Tuple':
+            items = []
+            for i_, ty_ in enumerate(c.result.args):
+                if ty_.kind == 'Opt':
+                    inner_ = ty_.args[0]
+                    items.append(Opt(fresh(BoolS, 'res%d?none' % i_), wrap(inner_, fresh(inner_.sort(), 'res%d' % i_))))
+                else: items.append(wrap(ty_, fresh(ty_.sort(), 'res%d' % i_)))
+            res_v = NTup(c.result.nt, items) if getattr(c.result, 'nt', None) is not None else Tup(items)
+            res_z = [it if isinstance(it, Opt) else unwrap(it) for it in items]
+        elif c.result is not None and c.result.kind == 'Opt':
             inner = c.result.args[0]
             res_v = Opt(fresh(BoolS, 'res?none_' + fi.qualname.split('.')[-1]), wrap(inner, fresh(inner.sort(), 'res_' + fi.qualname.split('.')[-1])))
             res_z = res_v
@@ -1743,6 +1818,10 @@ class CallMixin(object):
         d = self.deref(v, st)
         k = ty.kind
         if isinstance(d, Dual) and k == 'Fn': return d.fn
+        if isinstance(d, Opt) and k != 'Opt':
+            # an optional value used where a value is required: it must be known not to be None here
+            self.obl('not-none/%s' % nm, st, z3.Not(d.isnone))
+            return self.coerce(d.val, ty, st, nm)
         if k == 'Opt':
             if isinstance(d, Opt): return d
             inner = ty.args[0]
@@ -1779,6 +1858,11 @@ class CallMixin(object):
     def call_external(self, ext, args, kw, st, node):
         mod, name = ext
         if mod == 'io' and name == 'StringIO': return self.call_builtin('StringIO', args, kw, st, node)
+        if mod == 'collections' and name == 'namedtuple':
+            nm = self.deref(args[0], st); fl = self.deref(args[1], st)
+            fields = [self.deref(x, st) for x in self.iter_concrete(args[1], st)]
+            if not all(isinstance(x, PyStr) for x in fields): raise Unsupported('namedtuple with computed field names')
+            return [(NTClass(nm.s if isinstance(nm, PyStr) else '<nt>', [x.s for x in fields]), st)]
         raise Unsupported('external call %s.%s' % (mod, name))
 
 
@@ -1796,6 +1880,12 @@ class _LocalModule(object):
 _EXC_BUILTINS = set('ValueError KeyError TypeError IndexError NotImplementedError AttributeError ZeroDivisionError NameError'.split())
 
 join_fn = z3.Function('join', Doc, DocList, Doc)
+def round_n(x, n):
+    p = z3.RealVal(10 ** n)
+    return z3.ToReal(z3.ToInt(x * p + z3.RealVal('1/2'))) / p
+
+parses_int = z3.Function('parses_int', StrS, BoolS); parses_float = z3.Function('parses_float', StrS, BoolS)
+str_to_int = z3.Function('str_to_int', StrS, IntS); str_to_real = z3.Function('str_to_real', StrS, RealS)
 
 _sorted_seq_fns = {}
 def sorted_seq_fn(seqsort):
@@ -1867,7 +1957,18 @@ class Executor(Exec, ExprMixin, StmtMixin, CallMixin):
                 res_z = None
                 if c.result is not None and c.result.kind != 'None':
                     vd = self.deref(val, o.state)
-                    if c.result.kind == 'Opt':
+                    if c.result.kind == 'Tuple':
+                        items = self.iter_concrete(val, o.state)
+                        res_z = []
+                        for it, ty_ in zip(items, c.result.args):
+                            itd = self.deref(it, o.state)
+                            if ty_.kind == 'Opt':
+                                inner_ = ty_.args[0]
+                                if isinstance(itd, NoneV): res_z.append(Opt(z3.BoolVal(True), wrap(inner_, fresh(inner_.sort(), 'none'))))
+                                elif isinstance(itd, Opt): res_z.append(itd)
+                                else: res_z.append(Opt(z3.BoolVal(False), self.coerce(it, inner_, o.state, 'res')))
+                            else: res_z.append(unwrap(self.deref(self.coerce(it, ty_, o.state, 'res'), o.state)))
+                    elif c.result.kind == 'Opt':
                         inner = c.result.args[0]
                         if isinstance(vd, NoneV): res_z = Opt(z3.BoolVal(True), wrap(inner, fresh(inner.sort(), 'none')))
                         elif isinstance(vd, Opt): res_z = vd
